@@ -129,7 +129,7 @@ def run(rec, cfg):
     MR.attach_apply()
     rng = cfg.rng("c09")
     rules = MR.rule_instances()
-    n = cfg.scale(80, 20000)
+    n = cfg.scale(75, 20000)
     for src, text, hints in RC.start_texts(cfg, rng, n, equations=0.25):
         if cfg.out_of_time():
             rec.truncated = True
